@@ -294,7 +294,7 @@ fn main() {
             let seed = (n + b) as u64 % 5;
             do_write(&mut rep, a, &pattern(n, seed), Some((n, seed)), b, "grid");
         }
-        if rep.evaluations > 400_000 {
+        if rep.pending_len() > 400_000 {
             rep.flush_model(&args.camdrv);
         }
     }
